@@ -35,7 +35,7 @@ Qed.
 Lemma avt_repeat_good : forall n m ch, InvA (am m) -> GoodM (avt_repeat n m ch).
 Proof.
   induction n as [|k IH]; intros m ch H; cbn [avt_repeat]; [exact H|].
-  pose proof (fallback_good m ch H) as G. destruct (fallback m ch) as [m1|m1| |]; cbn in G |- *; auto.
+  pose proof (fallback_good m ch H) as G. destruct (fallback m ch) as [m1|m1|s]; cbn in G |- *; auto.
 Qed.
 Lemma avatar_step_good : forall m ch, InvA (am m) -> GoodM (avatar_step m ch).
 Proof.
@@ -241,12 +241,12 @@ Qed.
 Lemma run_good : forall e cs m m', scrolling e = true -> InvA (am m) -> run e m cs = RunOk m' -> InvA (am m').
 Proof.
   intros e cs. induction cs as [|c r IH]; intros m m' He H R; cbn in R; [inversion R; subst; exact H|].
-  pose proof (step_good e m c He H) as G. destruct (step e m c) as [m1|m1| |]; try discriminate; eapply IH; eauto.
+  pose proof (step_good e m c He H) as G. destruct (step e m c) as [m1|m1|s]; try discriminate; eapply IH; eauto.
 Qed.
 Lemma run_fg : forall e w h cs m m', scrolling e = false -> 1 <= w -> 1 <= h -> InvFG w h (mt m) -> run e m cs = RunOk m' -> InvFG w h (mt m').
 Proof.
   intros e w h cs. induction cs as [|c r IH]; intros m m' He Hw Hh H R; cbn in R; [inversion R; subst; exact H|].
-  pose proof (step_fg e w h m c He Hw Hh H) as G. destruct (step e m c) as [m1|m1| |]; try discriminate; eapply IH; eauto.
+  pose proof (step_fg e w h m c He Hw Hh H) as G. destruct (step e m c) as [m1|m1|s]; try discriminate; eapply IH; eauto.
 Qed.
 
 Lemma init_09 : forall w h, 1 <= w <= 132 -> 1 <= h <= 60 -> Inv09 (init_term w h).
